@@ -1,20 +1,21 @@
 package sym
 
 import (
+	"fmt"
 	"golang.org/x/tools/go/ssa"
 )
 
 // mergeStates merges states that stopped at the same control point.  base is
 // the length of the common path-condition prefix.  States that cannot be
 // merged (different shapes) are returned separately.
-func (e *Engine) mergeStates(rs []*State, base int) []*State {
+func (e *Engine) mergeStates(rs []*State) []*State {
 	var out []*State
 	pending := rs
 	for len(pending) > 0 {
 		acc := pending[0]
 		var rest []*State
 		for _, r := range pending[1:] {
-			if m, ok := e.merge2(acc, r, base); ok {
+			if m, ok := e.merge2(acc, r); ok {
 				acc = m
 				e.Stats.Merges++
 			} else {
@@ -53,14 +54,16 @@ func samePos(a, b *State) bool {
 
 // merge2 merges b into a (a is consumed).  The merged state satisfies
 // pc = prefix ∧ (condA ∨ condB) and every value is ite(condB, vb, va).
-func (e *Engine) merge2(a, b *State, base int) (*State, bool) {
+func (e *Engine) merge2(a, b *State) (*State, bool) {
 	if !samePos(a, b) {
+		if e.ForkSites != nil {
+			e.ForkSites["MERGEFAIL samePos"]++
+		}
 		return nil, false
 	}
-	for i := 0; i < base; i++ {
-		if a.pc[i] != b.pc[i] {
-			return nil, false
-		}
+	base := 0
+	for base < len(a.pc) && base < len(b.pc) && a.pc[base] == b.pc[base] {
+		base++
 	}
 	condA := e.suffixCond(a, base)
 	condB := e.suffixCond(b, base)
@@ -92,6 +95,9 @@ func (e *Engine) merge2(a, b *State, base int) (*State, bool) {
 			}
 			m, ok := e.mergeValue(condB, vb, va)
 			if !ok {
+				if e.ForkSites != nil {
+					e.ForkSites["MERGEFAIL reg "+k.Name()+" in "+fa.fn.Name()+": "+describe(va)+" vs "+describe(vb)]++
+				}
 				return nil, false
 			}
 			upds = append(upds, regUpd{i, k, m})
@@ -136,6 +142,9 @@ func (e *Engine) merge2(a, b *State, base int) (*State, bool) {
 		rb := e.reachable(b, a)
 		for _, id := range poisonIDs {
 			if ra[id] || rb[id] {
+				if e.ForkSites != nil {
+					e.ForkSites[fmt.Sprintf("MERGEFAIL obj %d: %s vs %s", id, describe(a.heap[id].Val), describe(b.heap[id].Val))]++
+				}
 				return nil, false
 			}
 		}
